@@ -24,6 +24,9 @@ from pyvc.ops import make_dict, dict_items
 from pyvc.repo import SRC_ROOT, ClassInfo
 
 PROPERTY = "C20"
+# obligations that flag a code SHAPE (a new process-global container) rather than a behaviour: a violation only with a native
+# witness (the census driver), otherwise an undecided note - a new registry is noticed, not condemned
+NEEDS_WITNESS = ["roots::every-process-global-root-is-classified"]
 SG = "krrood.entity_query_language.symbol_graph"
 PRED = "krrood.entity_query_language.predicate"
 MC = "krrood.ontomatic.property_descriptor.monitored_container"
@@ -108,6 +111,8 @@ def enumerate_roots():
                 if isinstance(v, ast.Call):
                     f = v.func
                     nm = f.id if isinstance(f, ast.Name) else (f.attr if isinstance(f, ast.Attribute) else "")
+                    if nm == "getLogger":
+                        return False          # a logger cannot hold user instances (only names, levels, handlers)
                     return nm in MUTABLE_CALLS
                 return False
 
